@@ -336,7 +336,9 @@ def run(argv):
             e = re.sub(r"(?<=[\w)])(?<![0-9.][deDE])([+-])(?=[\w(.])", r" \1 ", e)
         exprs.append(e)
     # malformed stream: must be rejected or value-preserving, never silently altered
-    exprs += ["-x", "exp(-x)", "a^2", "2 x", "sin(x)*", "(a+b", "a**", "1.0e", "a=b", "Tgas//2.0", "2.0//3.0*Te", "Te**//2"]
+    exprs += ["-x", "exp(-x)", "a^2", "2 x", "sin(x)*", "(a+b", "a**", "1.0e", "a=b", "Tgas//2.0", "2.0//3.0*Te", "Te**//2",
+              # a literal torn apart by a blank before its exponent is not a Fortran number
+              "3.0e -2*Tgas**0.5", "1.5 e3", "2 E+3*Te", "1.0d -10*Tgas", "4.2d0 d2", "Tgas*2.5 e-1", "1.0e - 3 + Te"]
     reqs, pend = [], []
     KROMEReaction.initialize()
     KROMEReaction.reacformat = "idx,r,p,rate"
